@@ -59,7 +59,10 @@ def _case(draw):
             # calls made before the judged one that the peer does not answer at all: each of them is bounded like any other call
             'earlier_failures': draw(st.sampled_from([0, 0, 0, 0, 1, 2, 3])),
             # the client has been in use for a while: its transaction-id counter is about to wrap
-            'tid_start': draw(st.sampled_from([0, 0, 0, 65533, 65534, 65535]))}
+            'tid_start': draw(st.sampled_from([0, 0, 0, 65533, 65534, 65535])),
+            # explicit life-cycle calls of the application before the judged call and before the follow-up (repeated calls are legal)
+            'lifecycle': draw(st.sampled_from([None, None, None, ['connect'], ['connect', 'connect'], ['connect', 'close'], ['close', 'close'],
+                                               ['connect', 'close', 'close', 'connect']]))}
 
 
 def strategy(tier):
@@ -209,6 +212,18 @@ def run_case(case):
         if case.get('tid_start'):
             client.transaction.tid = case['tid_start']
             labels.append('tid-near-wrap')
+
+        def lifecycle():
+            for op_ in case.get('lifecycle') or []:
+                try:
+                    getattr(client, op_)()
+                except transports.StepBudgetExceeded:
+                    raise
+                except Exception as e_:
+                    discs.append(Disc('raises', '%s: client.%s() raised %s: %s' % (ckind, op_, type(e_).__name__, e_)))
+        if case.get('lifecycle'):
+            labels.append('explicit-connect-close')
+            lifecycle()
         if case.get('pre_bad'):
             from pymodbus.register_write_message import WriteSingleRegisterRequest, WriteMultipleRegistersRequest
             labels.append('unencodable-request-first')
@@ -304,6 +319,7 @@ def run_case(case):
             peer.script = []
             n0 = peer.seq
             w.clock.sleep(3.0)        # the line is idle for a while: anything late has arrived by now
+            lifecycle()
             try:
                 freq = kinds.build(case['follow'][0], case['follow'][1], unit=case['unit'])
                 fres = client.execute(freq)
